@@ -38,6 +38,20 @@ Proof.
 Qed.
 Print Assumptions push_n_rejects_overflow.
 
+(* The range hypothesis of push_total is necessary: instructions.PUSH has no guard.  Outside [0, 2^256) the
+   faithful model (and the real code, replayed by the check on every run) silently emits bytes that do not
+   push x: 2^256 gives opcode 0x80 (DUP1) followed by 33 stray bytes, a negative value gives PUSH0/PUSH1 0. *)
+Theorem push_unguarded_refuted :
+  (exists x, 2 ^ 256 <= x /\ exists b r, (l <- PUSH idx_prague x ;; compile_push l) = Ok (b :: r) /\
+             push_width b = O /\ List.length r = 33%nat) /\
+  (exists x, x < 0 /\ (l <- PUSH idx_prague x ;; compile_push l) = Ok [0x5f] /\
+             (l <- PUSH idx_paris x ;; compile_push l) = Ok [0x60; 0]).
+Proof.
+  split.
+  - exists (2 ^ 256). split; [lia |]. eexists. eexists. vm_compute. auto.
+  - exists (-1). vm_compute. auto.
+Qed.
+
 Theorem num_to_bytearray_total : forall x, num_to_bytearray x = Ok (be_bytes x).
 Proof. exact num_to_bytearray_correct. Qed.
 
